@@ -188,10 +188,8 @@ func (mv mapValue) Contains(iv Value) bool {
 
 func (mv mapValue) IndexValue(iv Value) Value {
 	mr := reflect.ValueOf(mv.value)
-	ir := reflect.ValueOf(iv.Interface())
-	kt := mr.Type().Key()
-	if ir.IsValid() && ir.Type().ConvertibleTo(kt) && ir.Comparable() {
-		er := mr.MapIndex(ir.Convert(kt))
+	if kr, ok := mapKey(reflect.ValueOf(iv.Interface()), mr.Type().Key()); ok {
+		er := mr.MapIndex(kr)
 		if er.IsValid() {
 			return ValueOf(er.Interface())
 		}
@@ -199,12 +197,34 @@ func (mv mapValue) IndexValue(iv Value) Value {
 	return nilValue
 }
 
+// mapKey converts an index to a map's key type when the conversion loses
+// nothing: 1 finds the key int64(1) or 1.0, "k" finds a key of a named string
+// type; 65 does not find "A", 1.5 does not find 1, -1 does not find uint8(255).
+func mapKey(ir reflect.Value, kt reflect.Type) (reflect.Value, bool) {
+	if !ir.IsValid() || !ir.Comparable() {
+		return ir, false
+	}
+	it := ir.Type()
+	switch {
+	case it == kt:
+		return ir, true
+	case kt.Kind() == reflect.Interface:
+		if it.Implements(kt) {
+			return ir.Convert(kt), true
+		}
+	case it.ConvertibleTo(kt) && kt.ConvertibleTo(it):
+		kr := ir.Convert(kt)
+		if kr.Convert(it).Interface() == ir.Interface() {
+			return kr, true
+		}
+	}
+	return ir, false
+}
+
 func (mv mapValue) PropertyValue(iv Value) Value {
 	mr := reflect.ValueOf(mv.Interface())
-	ir := reflect.ValueOf(iv.Interface())
-	kt := mr.Type().Key()
-	if ir.IsValid() && ir.Type().ConvertibleTo(kt) && ir.Comparable() {
-		er := mr.MapIndex(ir.Convert(kt))
+	if kr, ok := mapKey(reflect.ValueOf(iv.Interface()), mr.Type().Key()); ok {
+		er := mr.MapIndex(kr)
 		if er.IsValid() {
 			return ValueOf(er.Interface())
 		}
